@@ -507,6 +507,10 @@ fn filler() -> &'static [u8] {
     F.get_or_init(|| (0..65535usize).map(|i| ((i * 31 + 7) % 256) as u8).collect())
 }
 
+thread_local! {
+    static SCRATCH: std::cell::Cell<Vec<u8>> = const { std::cell::Cell::new(Vec::new()) };
+}
+
 fn strip_nl(d: &[u8]) -> &[u8] {
     match d.split_last() {
         Some((b'\n', rest)) => rest,
@@ -626,7 +630,8 @@ fn eval_prefix(c: &PrefixCase) -> Verdict {
     for with_handler in [true, false] {
         let mut it = StreamingPeekableIter::new(&stream[..], FLUSH_ONLY, false);
         let mut progress: Vec<(bool, Vec<u8>)> = Vec::new();
-        let mut buf = vec![0u8; 70000];
+        let mut buf = SCRATCH.with(|s| s.take());
+        buf.resize(70000, 0);
         let (r1, r2);
         if with_handler {
             let mut rd = it.as_read_with_sidebands(|is_err: bool, t: &[u8]| {
@@ -640,6 +645,7 @@ fn eval_prefix(c: &PrefixCase) -> Verdict {
             r1 = rd.read(&mut buf).map(|n| buf[..n].to_vec());
             r2 = if r1.is_ok() { Some(rd.read(&mut [0u8; 16])) } else { None };
         }
+        SCRATCH.with(|s| s.set(buf));
         // expected
         #[derive(Debug, PartialEq)]
         enum X {
@@ -1048,6 +1054,11 @@ pub fn run(run: &'static Run) {
     run.assume("for a refused (malformed/oversized) prefix the blocking reader is expected to have consumed just the 4 prefix bytes");
     run.budget_secs(run.pick(40.0, 600.0));
     let quick = run.quick();
+    // every reader owns a 64 KiB line buffer: keep freed memory in the allocator instead of returning it to the kernel each time
+    unsafe {
+        libc::mallopt(libc::M_TRIM_THRESHOLD, 1 << 30);
+        libc::mallopt(libc::M_MMAP_THRESHOLD, 1 << 30);
+    }
 
     // ---- line ----
     let lens: Vec<usize> = (0..=6).chain(65505..=65520).collect();
